@@ -39,12 +39,26 @@ def run(ctx):
     b = ctx.build("c10", "c10.cpp", opt="-O1")
     if not b:
         return
-    for sec, extra in (("mc", [mats]), ("gen", []), ("misc", [])):
-        tr = ctx.scratch.path("c10-%s.ndjson" % sec)
+    # the emitted matrices in parts of <= 8000 (keeps every TLC process of the validation below ~4000 long lines)
+    parts = []
+    with open(mats) as f:
+        lines = f.readlines()
+    for i in range(0, len(lines), 8000):
+        pth = ctx.scratch.path("c10-matrices-%02d.txt" % (i // 8000))
+        with open(pth, "w") as g:
+            g.writelines(lines[i:i + 8000])
+        parts.append(pth)
+    jobs = [("mc" if len(parts) == 1 else "mc%02d" % k, "mc", [pth]) for k, pth in enumerate(parts)] + [("gen", "gen", []), ("misc", "misc", [])]
+    for label, sec, extra in jobs:
+        tr = ctx.scratch.path("c10-%s.ndjson" % label)
         ok, out = ctx.run_harness(b, [tr, ctx.tier, sec] + extra, tr)
         if not ok:
             return
-        ctx.validate(TRACE_MODULE, tr, label=sec, min_lines=200)
+        ctx.validate(TRACE_MODULE, tr, label=label, min_lines=200)
+        try:
+            os.remove(tr)
+        except OSError:
+            pass
     ctx.rule("every matrix visited by the TLC run of MC_C10 (unimodular, n = 2..4) through determinant, determinant(transpose), inverse, "
              "inverseTranspose, adjugate, m/m, m/=m, m/v, v/m, m*m + determinant, affineInverse of the affine embedding and of the matrix itself, "
              "float and double (mediump / lowp on every 4th): bit-exact against the integer layer; generated small-integer, triangular, "
